@@ -283,6 +283,7 @@ def task_history(rng, s, tables, model, build, wrong_num=2):
     # types and tasks per process
     labels = ["", "main", "work", "a long task type label", "w"]
     types = {}     # proc -> list of typeids
+    typelabel = {} # (proc, typeid) -> label the emulator will use
     tasks = {}     # proc -> {taskid: dict(par, bodies{bid: state}, on)}
     stacks = {t: [] for t in range(n)}
     need_labels = set()
@@ -302,6 +303,7 @@ def task_history(rng, s, tables, model, build, wrong_num=2):
             need_labels.add(task_label(typeid, lab))
             if typeid and typeid not in types.setdefault(pr, []):
                 types[pr].append(typeid)
+                typelabel[(pr, typeid)] = task_label(typeid, lab)
         for k in range(rng.range(1, 4)):
             if not types.get(pr):
                 break
@@ -312,7 +314,7 @@ def task_history(rng, s, tables, model, build, wrong_num=2):
             clk += 2
             ev.append((rng.choice(tl), clk, M + ("TC" if par else "Tc"), u32(taskid) + u32(typeid)))
             if typeid in types[pr] and taskid not in tasks.setdefault(pr, {}):
-                tasks[pr][taskid] = {"par": par, "bodies": {}}
+                tasks[pr][taskid] = {"par": par, "bodies": {}, "label": typelabel[(pr, typeid)]}
     s.gid = gids(build, sorted(need_labels))
     # random operations
     for _ in range(rng.range(3, 40)):
@@ -346,7 +348,7 @@ def task_history(rng, s, tables, model, build, wrong_num=2):
                     cands += [("p", tid, bid)] * 2
             elif st == "P":
                 cands += [("r", tid, bid)] * 2
-        nest_running = model == "nanos6" and top and tk[top[0]]["bodies"][top[1]]["st"] == "R" and rng.chance(1, 3)
+        nest_running = model == "nanos6" and top and tk[top[0]]["bodies"][top[1]]["st"] == "R" and rng.chance(2 if getattr(s, "prefer_nesting", False) else 1, 3)
         if not top or tk[top[0]]["bodies"][top[1]]["st"] == "P" or nest_running:
             for tid, info in tk.items():
                 if info["par"]:
